@@ -603,7 +603,28 @@ func c12(r *Run) {
 		}
 		r.check(bad == "", "C12.R1", name+":no-raw-uint64-arithmetic", w.rel(f.Pos()), "", "unchecked 64-bit arithmetic in metering: "+bad)
 		vals := callsNamed(f, "(*"+opPkg+".Uint64Operator).Value")
-		r.check(len(vals) >= 4, "C12.R1", name+":four-accumulators", w.rel(f.Pos()), fmt.Sprint(len(vals)), "fewer than four checked accumulators (compute, read, allocate, write)")
+		// accumulators may live in helpers that did not exist on the reference tree (whose errors Units propagates:
+		// checked below for the helper call itself)
+		nVals := len(vals)
+		for _, c := range callsTo(f, func(n string) bool { return strings.HasPrefix(n, "(*"+pkgChain+".") || strings.HasPrefix(n, pkgChain+".") }) {
+			if g := transparentCallee(c); g != nil {
+				r.saw(g)
+				gv := callsNamed(g, "(*"+opPkg+".Uint64Operator).Value")
+				nVals += len(gv)
+				for _, v := range gv {
+					r.failureLeadsToErrorReturn(w, "C12.R1", name+":Value-error-returned", v)
+				}
+				if len(gv) > 0 {
+					r.failureLeadsToErrorReturn(w, "C12.R1", name+":Value-error-returned", c)
+				}
+				for _, b := range binops(g, token.ADD, token.MUL, token.SUB, token.SHL) {
+					if bt, ok := b.Type().Underlying().(*types.Basic); ok && bt.Kind() == types.Uint64 {
+						r.bad("C12.R1", name+":no-raw-uint64-arithmetic", r.at(w, b), "unchecked 64-bit arithmetic in metering: "+term(b))
+					}
+				}
+			}
+		}
+		r.check(nVals >= 4, "C12.R1", name+":four-accumulators", w.rel(f.Pos()), fmt.Sprint(nVals), "fewer than four checked accumulators (compute, read, allocate, write)")
 		for _, v := range vals {
 			r.failureLeadsToErrorReturn(w, "C12.R1", name+":Value-error-returned", v)
 		}
@@ -697,6 +718,9 @@ func c12(r *Run) {
 				}
 				return nil
 			}
+			// an element may also be a result of a helper that did not exist on the reference tree: follow the value
+			// of its success return, rendering terms with the call's arguments substituted
+			var feedsOf func(v ssa.Value, depth int) []string
 			feeds := func(acc *ssa.Call) []string {
 				var out []string
 				if acc == nil {
@@ -717,16 +741,36 @@ func c12(r *Run) {
 				}
 				return out
 			}
+			feedsOf = func(v ssa.Value, depth int) []string {
+				if a := accOf(v); a != nil {
+					return feeds(a)
+				}
+				ex, ok := strip(v).(*ssa.Extract)
+				if !ok || depth >= maxLiftDepth {
+					return nil
+				}
+				c, ok := ex.Tuple.(*ssa.Call)
+				if !ok {
+					return nil
+				}
+				rv, callee := inlinedResult(c, ex.Index)
+				if rv == nil {
+					return nil
+				}
+				var out []string
+				withCallEnv(c, callee, func() { out = feedsOf(rv, depth+1) })
+				return out
+			}
 			bw := term(lit[dimIdx["Bandwidth"]])
 			r.check(bw == "uint64((*chain.Transaction).Size(p0))", "C12.R2", "Units:Bandwidth=Size", w.rel(un.Pos()), bw, "bandwidth units are not the transaction's encoded size: "+bw)
-			cf := strings.Join(feeds(accOf(lit[dimIdx["Compute"]])), " ; ")
+			cf := strings.Join(feedsOf(lit[dimIdx["Compute"]], 0), " ; ")
 			r.check(cf == "init:(chain.Rules).GetBaseComputeUnits(p2) ; Add:(chain.Action).ComputeUnits(p0.TransactionData.Actions[(1 + phi(-1, ↺))], p2) ; Add:(chain.Auth).ComputeUnits(p0.Auth, p2)", "C12.R2", "Units:Compute=base+actions+auth", w.rel(un.Pos()), cf, "compute units are not base + every action + auth: "+cf)
 			for _, d := range []struct{ dim, key, val string }{
 				{"StorageRead", "GetStorageKeyReadUnits", "GetStorageValueReadUnits"},
 				{"StorageAllocate", "GetStorageKeyAllocateUnits", "GetStorageValueAllocateUnits"},
 				{"StorageWrite", "GetStorageKeyWriteUnits", "GetStorageValueWriteUnits"},
 			} {
-				sf := strings.Join(feeds(accOf(lit[dimIdx[d.dim]])), " ; ")
+				sf := strings.Join(feedsOf(lit[dimIdx[d.dim]], 0), " ; ")
 				want := "init:0 ; Add:(chain.Rules)." + d.key + "(p2) ; MulAdd:uint64(keys.MaxChunks([]byte(next(range((*chain.Transaction).StateKeys(p0, p1)#0))#1))#0)*(chain.Rules)." + d.val + "(p2)"
 				r.check(sf == want, "C12.R2", "Units:"+d.dim, w.rel(un.Pos()), sf, d.dim+" units are not (per declared key) key cost + chunks(key) * value cost: "+sf)
 			}
